@@ -15,7 +15,7 @@ RULE = ('seeded operation sequences on hosted list / dict / Namespace / Value / 
         '(type, args) are compared step by step; raised exceptions must be remote exceptions with the server-side traceback and the next call on the same '
         'connection must succeed; values returned via managed_*() are mutated through the returned proxy and read back inside the server; concurrent phases '
         '(1-4 threads) use per-key-partitioned or commutative operations. non-trivial = sequence with >=1 raising operation and >=2 proxies in >=2 processes; '
-        'distinct = distinct (kind, seed)')
+        'distinct = distinct (kind, seed); bare managed() of a list and of a registered user class (twice per sequence); proxies stored in a hosted object and used inside the server, incl. a raising call')
 ASSUMPTIONS = ['the local reference object is of the same class the server hosts (list, dict, multiprocessing.managers.Namespace / Value, vlib.mgrtargets.Box)',
                'concurrent phases are restricted to commutative / key-partitioned operations so that the sequential model stays an exact oracle']
 CASE_TIMEOUT = 240
